@@ -407,7 +407,11 @@ fn supervise(prop: &str, tier: Tier, seed: u64) -> i32 {
     let mut replay_paths: Vec<String> = Vec::new();
     let mut n_written = 0;
     for v in &unlisted {
-        let key = format!("{}|{}|{}|{}", v["symptom"], v["replay"]["case"]["operands_hash"], v["replay"]["operation"], v["replay"]["signature"]);
+        let key = if v["replay"]["case"]["operands_hash"].is_string() {
+            format!("{}|{}|{}", v["symptom"], v["replay"]["case"]["operands_hash"], v["replay"]["operation"])
+        } else {
+            format!("{}|{}", v["symptom"], v["replay"])
+        };
         if !seen.insert(key.clone()) {
             continue;
         }
